@@ -40,4 +40,14 @@ CHECKS["C13"] = {
     "note": "Trusted: pointer-identity identification of callback targets by the driver. Events the statement is silent on are optional (DESIGN 6 C13). Pairs of registrations are exhaustive only on the smallest shapes in the quick tier.",
     "technique": MBT,
 }
+CHECKS["C03"] = {
+    "text": "The text layout (column width = widest line, row height, line-kind sequence, rule and content line structure, equal display width) is a declarative TLA+ relation, and the code's two passes are an implementation-shaped TLA+ emitter; TLC checks on all small grids (cell shapes empty / narrow / wide / multi-line, header of any length or none, separators anywhere, ragged and empty rows, boxed and boxless) that the emitter satisfies the relation, and every such grid is rendered by the real library literally and with rich-Unicode substitution, plus random tables up to 6x8 under every registered decoration and random custom decorations completed by Populate; TLC validates every output line (count, kind, exact slot strings with the decoration's glyphs as wild-cards, display width) against the relation.",
+    "note": "Trusted: the driver's line split and the library's width measure of each logged line; glyphs are one cell wide. Grids beyond the bounds are sampled.",
+    "technique": MBT,
+}
+CHECKS["C04"] = {
+    "text": "Same layout model as C03, exercised on the alignment and size-override dimensions: TLC enumerates every assignment of {unset,left,right,centre} to column 0 and each column over grids whose cells include width- and height-declaring items (declared <, > actual), checks the emitter against the declarative slot rule (text unmodified, padding side, odd space on the right for centre, own setting beats the column-0 default, declared width of single-line items, declared height), and every case plus random sized/aligned tables is rendered by the real library and validated line by line.",
+    "note": "Trusted as C03. Multi-line items declaring a width are not generated (statement silent). Alignment values other than the library's three are not generated.",
+    "technique": MBT,
+}
 NOT_APPLICABLE = {}
